@@ -253,6 +253,10 @@ func checkC20(c *Ctx) {
 		"handshakes that obtained the slice through ticketKeys() read it without the lock, and clones of the Config share it: a rotation races with them and changes the keys of the clones")
 	c20SharedStateful(c)
 	c20KeyLog(c)
+	// a key-agreement object holds per-handshake state (the peer's encipherment certificate, ephemeral keys): every
+	// handshake gets a fresh one from the suite's constructor, never a package-level instance
+	noGlobalAlias(c, "L-SHAREDSTATE", [][2]string{{"gmtls", "rsaKA"}, {"gmtls", "ecdheECDSAKA"}, {"gmtls", "ecdheRSAKA"}, {"gmtls", "ecdheGMKA"}, {"gmtls", "eccGMKA"}},
+		"overlapping handshakes share one key-agreement object and overwrite each other's per-handshake fields")
 }
 
 // c20KeyLog: Config.KeyLogWriter is copied by Clone (and by GetConfigForClient patterns), so connections of DIFFERENT
